@@ -6,8 +6,8 @@ import Verif.Properties.C03
 #print axioms C09.pipeline_never_panics
 #print axioms C09.pipeline_local_never_panics
 #print axioms C09.classify_never_panics
-#print axioms C09.strip_site_guarded
-#print axioms C09.strip_site_panics_unguarded
+#print axioms C09.strip_never_panics
+#print axioms C09.strip_skips_self_references
 #print axioms C06.terminates
 #print axioms C20.terminates
 #print axioms C03.uniqify_terminates
